@@ -50,8 +50,10 @@ def gen_session(rng, max_n=180, allow_two=True, fast=None, kinds=('futures', 'fu
 
 
 def candles_of(sess):
+    """n trading rows per symbol, preceded by sess['warmup'] warm-up rows when that is set (run_real splits them off)"""
     rr = random.Random(sess['candle_seed'])
-    return {s: bt.make_candles(engine.gen_candles(rr, sess['n'], gap_prob=sess.get('gap_prob', 0.2), vol=sess.get('vol', 4)))
+    w = sess.get('warmup', 0)
+    return {s: bt.make_candles(engine.gen_candles(rr, sess['n'] + w, gap_prob=sess.get('gap_prob', 0.2), vol=sess.get('vol', 4)))
             for s in sess['syms']}
 
 
@@ -155,9 +157,12 @@ def run_real(sess, cands, extra_observer=None):
     holder['tr'] = tr
     err = None
     import copy
+    w = sess.get('warmup', 0)
+    trading = {s: a[w:] for s, a in cands.items()} if w else cands
+    warm = {s: a[:w] for s, a in cands.items()} if w else None
     with tr:
         try:
-            bt.run(cfg, classes, sess['droutes'], copy.deepcopy(cands), fast_mode=sess['fast'])
+            bt.run(cfg, classes, sess['droutes'], copy.deepcopy(trading), warmup_candles=copy.deepcopy(warm), fast_mode=sess['fast'])
         except Exception as e:  # noqa
             err = e
     flush(tr)
